@@ -422,6 +422,22 @@ func c04Run(c *fw.Ctx, b fw.Batch) {
 					}
 				}
 			}
+			// (1a) a CR as the last examined byte with / without an LF right behind the limit
+			for _, head := range []string{"a,b\r\nc,d\r", "{\"a\":1}\r", "x\ty\r\n1\t2\r", "plain\r", "[1,2]\r\n[3]\r", "<html>\r"} {
+				L := uint32(len(head))
+				want := leafOf(lib.Detect([]byte(head), L))
+				for _, tail := range []string{"\n", "\nmore,rows\r\n", "x", "\r\n", "\n\x00"} {
+					x := []byte(head + tail)
+					got := leafOf(lib.Detect(x, L))
+					mimetype.SetLimit(L)
+					m, _ := mimetype.DetectReader(bytes.NewReader(x))
+					c.Eval(2)
+					c.Count("crlf_split_by_the_limit_cases", 1)
+					if got != want || leafOf(m) != want {
+						c.Violate("depends-on-bytes-beyond-limit", fw.InputKey(x, L, "Detect/cr-at-limit"), fmt.Sprintf("the first %d bytes %s give %s; followed by %s the same limit gives %s (Detect) / %s (DetectReader)", L, fw.Quote([]byte(head), 40), want, fw.Quote([]byte(tail), 20), got, leafOf(m)), c04Payload{Kind: "tail-poison", Probe: c04Probe{Name: "cr-at-limit", In: x, Limit: L}})
+					}
+				}
+			}
 			// (1b) the reader path with limits just above 1 MiB: bytes beyond the limit never change the answer
 			for _, L := range []int{1<<20 + 1, 1<<20 + 4097, 3<<19 + 5} {
 				head := bytes.Repeat([]byte("a line of text\n"), L/15+1)[:L]
